@@ -4,7 +4,7 @@ import itertools
 DRIVER = "c01"
 MODEL = "C01"
 MODEL_QUALID = "Model.Bulkhead.run_script"
-FORMAT = ("script [cap; max_wait_ms (-1 none); n; (op a b)*] op 1=Poll a 2=Drop a 3=Advance a(ms) 4=Complete a b(0 ok,1 err,2 panic); "
+FORMAT = ("script [cap; max_wait_ms (-1 none); n; (op a b)*] op 1=Poll a 2=Drop a 3=Advance a(ms) 4=Complete a b(0 ok,1 err,2 panic) 5=Call a (create the call future without polling it); "
           "then every caller is dropped and cap+1 fresh callers are polled once (capacity probe). "
           "trace: per event [r; started; seen; wake mask; in-flight] with r: -1 no poll, 0 pending, 1 Ok, 2 Err(Inner), 3 Timeout, 4 BulkheadFull, 5 panicked, 9 nothing to poll")
 TRUSTED = ["tokio Semaphore (FIFO hand-over on release), time::timeout (inner future polled before the timer) and oneshot are modelled, tied to the libraries only by this correspondence run",
@@ -15,7 +15,7 @@ ASSUMPTIONS = ["whole-millisecond instants", "single-threaded deterministic exec
 def events(s):
     cap, mw, n = s[0], s[1], s[2]
     evs = [tuple(s[i:i + 3]) for i in range(3, len(s) - (len(s) - 3) % 3, 3)]
-    evs = [e for e in evs if e[0] in (1, 2, 3, 4)]
+    evs = [e for e in evs if e[0] in (1, 2, 3, 4, 5)]
     evs = [e for e in evs if e[0] in (3,) or 0 <= e[1]]
     evs += [(2, i, 0) for i in range(n)] + [(1, i, 0) for i in range(n, n + cap + 1)]
     return cap, mw, n, evs
@@ -36,6 +36,9 @@ def corpus():
         [1, 30, 3, 1, 0, 0, 1, 1, 0, 1, 2, 0, 2, 0, 0, 1, 1, 0, 3, 30, 0, 1, 2, 0],
         # permit released at the very instant of the waiter's deadline
         [1, 10, 2, 1, 0, 0, 1, 1, 0, 3, 10, 0, 4, 0, 0, 1, 0, 0, 1, 1, 0],
+        # futures created (call()) while a slot is free, polled only after it was taken: must still time out
+        [1, 20, 3, 5, 0, 0, 5, 1, 0, 5, 2, 0, 1, 0, 0, 1, 1, 0, 1, 2, 0, 3, 20, 0, 1, 1, 0, 1, 2, 0],
+        [1, 0, 2, 5, 0, 0, 5, 1, 0, 1, 0, 0, 1, 1, 0],
         # cancellation of a granted-but-not-yet-polled waiter hands the permit on
         [1, -1, 3, 1, 0, 0, 1, 1, 0, 1, 2, 0, 4, 0, 1, 1, 0, 0, 2, 1, 0, 1, 2, 0],
     ]
@@ -49,8 +52,10 @@ def random_script(rng, maxn=6, maxlen=30):
     L = rng.randint(3, maxlen)
     for _ in range(L):
         x = rng.random()
-        if x < 0.5:
+        if x < 0.45:
             s += [1, rng.randrange(n), 0]
+        elif x < 0.5:
+            s += [5, rng.randrange(n), 0]      # call() without a poll
         elif x < 0.62:
             s += [2, rng.randrange(n), 0]
         elif x < 0.80:
@@ -61,7 +66,7 @@ def random_script(rng, maxn=6, maxlen=30):
 
 
 def exhaustive(depth, cap=1, mw=2, n=3):
-    alpha = [(1, i, 0) for i in range(n)] + [(2, i, 0) for i in range(n)] + [(3, 1, 0), (3, 2, 0)] + \
+    alpha = [(1, i, 0) for i in range(n)] + [(2, i, 0) for i in range(n)] + [(5, i, 0) for i in range(1, n)] + [(3, 1, 0), (3, 2, 0)] + \
             [(4, i, 0) for i in range(n)] + [(4, 0, 2), (4, 1, 1)]
     for L in range(1, depth + 1):
         for evs in itertools.product(alpha, repeat=L):
